@@ -5,13 +5,15 @@ EXTENDS MCBase
 
 MCAccounts == IF Thorough THEN {"a1", "a2", "a3", "a4"} ELSE {"a1", "a2", "a3"}
 
-MCInit == {BaseState}
+\* (a chain whose genesis left the delegated roles empty: nobody holds them until the owner appoints someone)
+MCInit == {BaseState, [BaseState EXCEPT !.pauser = "EMPTY", !.tokCtl = "EMPTY"]}
 
 NewHolders == MCAccounts \cup {"GARBAGE", "EMPTY_PAYLOAD"} \cup (IF Thorough THEN {"LONG_PAYLOAD", "BAD_CHECKSUM"} ELSE {})
 
 AdminMsgs(from) ==
        [type : {"UpdateOwner", "UpdateAttesterManager", "UpdatePauser", "UpdateTokenController"},
         from : {from}, new : NewHolders]
+  \cup [type : {"UpdatePauser"}, from : {from}, new : {"p1"}]    \* a holder sharing 20 bytes with a1
   \cup [type : {"AcceptOwner"} \cup PauserTypes, from : {from}]
   \cup [type : {"UpdateMaxMessageBodySize"}, from : {from}, size : {150}]
   \cup [type : {"AddRemoteTokenMessenger"}, from : {from}, d : {"d2"}, addr : {B("j", "m2")}]
@@ -27,7 +29,10 @@ UserMsgs(from) ==
        [type : {"SendMessage"}, from : {from}, dst : {"d1"}, rcpt : {B("j", "r1")}, body : {Raw(1, 10)}]
   \cup [type : {"DepositForBurn"}, from : {from}, amt : {1}, dst : {"d1"}, mrcpt : {B("j", "x1")}, tok : {MINT}]
 
-MCMsgs(s, h) == UNION {AdminMsgs(a) \cup UserMsgs(a) : a \in MCAccounts}
+\* the account that shares its first 20 bytes with a1 tries the pauser's and the owner's actions
+P1Msgs == [type : PauserTypes \cup {"AcceptOwner"}, from : {"p1"}]
+          \cup [type : {"UpdatePauser", "UpdateOwner"}, from : {"p1"}, new : {"a2"}]
+MCMsgs(s, h) == UNION {AdminMsgs(a) \cup UserMsgs(a) : a \in MCAccounts} \cup P1Msgs
 
 \* One representative of the non-role part of the state per role assignment.
 RoleView == <<st.owner, st.pending, st.attMgr, st.pauser, st.tokCtl, tx>>
